@@ -35,6 +35,8 @@ THEOREMS: Dict[str, str] = {
     "C12_assert_cannot_fail_exact": "full",
     "C12_assert_cannot_fail_float": "full",
     "C12_equal_amounts_exact_partial": "partial",
+    "C12_equal_amounts_float_sound": "full",
+    "C12_equal_amounts_float_complete_partial": "partial",
     "C12_unequal_across_kinds": "full",
     "C12_ex_names": "example",
     "C12_ex_prefix_pairs": "example",
@@ -42,6 +44,7 @@ THEOREMS: Dict[str, str] = {
     "C12_ex_spelled": "example",
     "C12_ex_convert": "example",
     "C12_ex_float": "example",
+    "C12_ex_float_path": "example",
     "C12_ex_equal": "example",
     "C12_ex_alt": "example",
 }
